@@ -51,6 +51,31 @@ func graphInRep(rep string, n int, mask uint64) graph.Graph {
 	case "cocomplement": // complement view of the dense complement: feeds sortints.Complement-built neighbour lists
 		full := uint64(1)<<uint(edgeCount(n)) - 1
 		return graph.Complement(denseFromMask(n, full&^mask))
+	case "dense-bytes":
+		// a DenseGraph whose edge indicators are arbitrary non-zero bytes (NewDense keeps the caller's values and the
+		// library tests them with > 0; ChromaticIndex documents returning such an array)
+		e := make([]byte, edgeCount(n))
+		for i := range e {
+			if mask>>uint(i)&1 == 1 {
+				e[i] = byte(2 + (i*37)%254)
+			}
+		}
+		return graph.NewDense(n, e)
+	case "nested-view":
+		// a view of a view, both over unsorted vertex lists: inner = view of the reversed labelling that undoes the
+		// reversal after a rotation, outer undoes the rotation; the result is the graph itself
+		rev := make([]int, n)
+		for i := range rev {
+			rev[i] = n - 1 - i
+		}
+		h := denseFromMask(n, permuteMask(n, mask, rev)) // vertex v of the graph is vertex rev[v] of h
+		inner := make([]int, n)                          // vertex i of the inner view = graph vertex (i+1)%n = h vertex rev[(i+1)%n]
+		outer := make([]int, n)                          // vertex v of the outer view = inner vertex (v-1+n)%n = graph vertex v
+		for i := 0; i < n; i++ {
+			inner[i] = rev[(i+1)%n]
+			outer[i] = (i - 1 + n) % n
+		}
+		return graph.InducedSubgraph(graph.InducedSubgraph(h, inner), outer)
 	case "induced-view":
 		// induced-subgraph view of a graph with one extra (dropped) vertex adjacent to everything
 		big := m.clone()
@@ -384,7 +409,7 @@ func runC01(c *Ctx) {
 	}
 	// other representations feed different Neighbours slices
 	for n := 0; n <= 6; n++ {
-		for _, rep := range []string{"sparse", "cocomplement", "induced-view"} {
+		for _, rep := range []string{"sparse", "cocomplement", "induced-view", "dense-bytes", "nested-view"} {
 			c01Exhaust(c, n, rep, classCounts[n])
 		}
 	}
@@ -393,6 +418,7 @@ func runC01(c *Ctx) {
 	c01Regular(c, 9, []int{0, 2, 4, 6, 8})
 	c01Hard(c)
 	c01Unions(c)
+	c01RegularUnions(c)
 	c01Reps(c)
 	c01Big(c)
 	c01Huge(c)
@@ -417,7 +443,7 @@ func c01CrossRep(c *Ctx, maxN int) {
 					if cl != "" {
 						return nil // reported by the exhaustive phase
 					}
-					for _, rep := range []string{"sparse", "cocomplement", "induced-view"} {
+					for _, rep := range []string{"sparse", "cocomplement", "induced-view", "dense-bytes", "nested-view"} {
 						x, cl, _ := canonOf(rep, n, m)
 						if cl == "" && x != base {
 							return canonFail("canonical/representation-dependent", fmt.Sprintf("n=%d %s: dense -> %s, %s -> %s", n, g6(n, m), g6(n, base), rep, g6(n, x)), rep, n, m, nil)
